@@ -110,7 +110,7 @@ public:
 
         if (m_maxFileSize > 0) {
             const auto additionalSize = lmsg.formattedMessage().toUtf8().size() + 1; // +1 for newline
-            checkSizeRotation(additionalSize);
+            checkSizeRotation(additionalSize, messageDate);
         }
     }
 
@@ -123,13 +123,16 @@ public:
 
     void checkDailyRotation(const QDate &messageDate)
     {
-        if (messageDate != m_currentLogDate && q_ptr->file()->size() > 0) {
-            rotate();
+        if (messageDate != m_currentLogDate) {
+            if (q_ptr->file()->size() > 0) {
+                rotate();
+            }
+            // An empty file simply becomes the file of the message's day
             m_currentLogDate = messageDate;
         }
     }
 
-    void checkSizeRotation(int additionalSize)
+    void checkSizeRotation(int additionalSize, const QDate &messageDate)
     {
         if (m_maxFileSize <= 0)
             return;
@@ -137,6 +140,9 @@ public:
         const auto currentSize = q_ptr->file()->size();
         if (currentSize > 0 && (currentSize + additionalSize) > m_maxFileSize) {
             rotate();
+            // The new file starts with this message: it belongs to the message's day, which is
+            // not necessarily the wall-clock day (asynchronous delivery around midnight)
+            m_currentLogDate = messageDate;
         }
     }
 
